@@ -208,15 +208,19 @@ def catalogue():
     out = []
     for kind in ('scalar', 'nested', 'deep'):
         for who in ('a', 'b'):
-            for tail in (False, True):
+            # (tail = 'both': the tasks that feed the join are created when their own predecessors complete, so the order of their rows -
+            #  and with it the base of the merge - follows the order in which the two branches make progress)
+            for tail in (False, True, 'both'):
                 P = DFProgram()
-                P.order = ['r', 'a', 'b'] + (['a2'] if tail else []) + ['j']
+                P.order = ['r', 'a', 'b'] + (['a2'] if tail else []) + (['b2'] if tail == 'both' else []) + ['j']
                 P.tasks = {'r': {'kind': 'action', 'succ': [{'to': 'a'}, {'to': 'b'}], 'err': [], 'comp': []},
                            'a': {'kind': 'action', 'succ': [{'to': 'a2' if tail else 'j'}], 'err': [], 'comp': []},
-                           'b': {'kind': 'action', 'succ': [{'to': 'j'}], 'err': [], 'comp': []},
+                           'b': {'kind': 'action', 'succ': [{'to': 'b2' if tail == 'both' else 'j'}], 'err': [], 'comp': []},
                            'j': {'kind': 'action', 'join': -1, 'succ': [], 'err': [], 'comp': []}}
                 if tail:
                     P.tasks['a2'] = {'kind': 'action', 'succ': [{'to': 'j'}], 'err': [], 'comp': []}
+                if tail == 'both':
+                    P.tasks['b2'] = {'kind': 'action', 'succ': [{'to': 'j'}], 'err': [], 'comp': []}
                 P.oracle = {t: ['ok'] for t in P.order}
                 P.flags = {'dataflow': True}
                 rnd = _r.Random(1)
@@ -227,5 +231,5 @@ def catalogue():
                     return _value(rnd, t, 'ok', 1.0, ['k', 'm'], deep=(kind == 'deep'))
                 P.tasks['r']['publish'] = {'x0': val('r'), 'x1': val('r')}
                 P.tasks[who]['publish'] = {'x0': val(who)}
-                out.append(('df_%s_%s%s' % (kind, who, '_tail' if tail else ''), P))
+                out.append(('df_%s_%s%s' % (kind, who, '_tails' if tail == 'both' else '_tail' if tail else ''), P))
     return out
